@@ -43,7 +43,7 @@ class Paths:
 def cargo_env(paths, flavour):
     env = dict(os.environ)
     env["CARGO_NET_OFFLINE"] = "true"
-    env["CARGO_TARGET_DIR"] = paths.target if flavour != "asan" else paths.target + "-asan"
+    env["CARGO_TARGET_DIR"] = paths.target if flavour not in SANITIZERS else paths.target + "-" + flavour
     env.pop("RUSTFLAGS", None)
     return env
 
@@ -55,14 +55,16 @@ def build(paths, bins, flavour="hooks"):
         shutil.copy(os.path.join(paths.repo, "Cargo.lock"), lock)
     cmd = ["cargo"]
     env = cargo_env(paths, flavour)
-    if flavour == "asan":
+    if flavour in SANITIZERS:
         cmd += ["+nightly"]
-        env["RUSTFLAGS"] = "--cfg hickory_dns_verif -Zsanitizer=address -Cforce-frame-pointers=yes"
+        env["RUSTFLAGS"] = "--cfg hickory_dns_verif -Cforce-frame-pointers=yes -Cdebuginfo=1 " + SANITIZERS[flavour]
     cmd += ["build", "--offline", "--quiet"]
     if flavour == "shipped":
         cmd += ["--release"]
-    if flavour == "asan":
+    if flavour in SANITIZERS:
         cmd += ["--target", "x86_64-unknown-linux-gnu"]
+    if flavour == "tsan":
+        cmd += ["-Zbuild-std"]
     for b in bins:
         cmd += ["--bin", b]
     if paths.alt_repo:
@@ -71,11 +73,58 @@ def build(paths, bins, flavour="hooks"):
     t0 = time.time()
     p = subprocess.run(cmd, cwd=HARNESS, env=env, stdout=subprocess.PIPE, stderr=subprocess.STDOUT, text=True)
     out = p.stdout
-    if flavour == "asan":
+    if flavour in SANITIZERS:
         bindir = os.path.join(env["CARGO_TARGET_DIR"], "x86_64-unknown-linux-gnu", "debug")
     else:
         bindir = os.path.join(env["CARGO_TARGET_DIR"], "release" if flavour == "shipped" else "debug")
     return p.returncode == 0, bindir, out, time.time() - t0
+
+
+SANITIZERS = {
+    "asan": "-Zsanitizer=address",
+    "tsan": "-Zsanitizer=thread",
+}
+
+
+def sanitizer_env(flavour, outdir):
+    """Environment for a sanitizer flavour: reports go to <outdir>/san.<pid>, first report ends the process."""
+    e = {}
+    if flavour == "asan":
+        e["ASAN_OPTIONS"] = "detect_leaks=0:halt_on_error=1:abort_on_error=0:exitcode=97:symbolize=1:log_path=%s" % os.path.join(outdir, "san")
+        e["ASAN_SYMBOLIZER_PATH"] = "/usr/bin/llvm-symbolizer"
+    if flavour == "tsan":
+        supp = os.path.join(VERIF, "lib", "tsan.supp")
+        e["TSAN_OPTIONS"] = "halt_on_error=1:exitcode=66:second_deadlock_stack=1:suppressions=%s:log_path=%s:external_symbolizer_path=/usr/bin/llvm-symbolizer" % (supp, os.path.join(outdir, "san"))
+    return e
+
+
+def sanitizer_reports(outdir, repo):
+    """Parse sanitizer logs. Returns (in_repo, third_party): lists of {kind, frame, file} dicts.
+
+    A report is attributed to hickory-dns when a frame of its FIRST stack (the faulting access) lies in
+    <repo>/crates; anything else (dependency, std, harness) is third party and never fails a check."""
+    import glob, re
+    in_repo, third = [], []
+    for f in sorted(glob.glob(os.path.join(outdir, "san.*"))):
+        try:
+            txt = open(f, errors="replace").read()
+        except OSError:
+            continue
+        m = re.search(r"(?:ERROR|WARNING): (AddressSanitizer|ThreadSanitizer|LeakSanitizer): ([^\n(]+)", txt)
+        if not m:
+            continue
+        kind = (m.group(1) + ": " + m.group(2)).strip()
+        first_stack = []
+        for line in txt[m.end():].splitlines():
+            fm = re.match(r"\s+#\d+ 0x[0-9a-f]+ (?:in )?(\S+) (\S+)", line)
+            if fm:
+                first_stack.append((fm.group(1), fm.group(2)))
+            elif first_stack:
+                break
+        hit = next(((fn, loc) for fn, loc in first_stack if (repo.rstrip("/") + "/crates/") in loc), None)
+        rec = {"kind": kind, "file": f, "frame": "%s %s" % (hit if hit else (first_stack[0] if first_stack else ("?", "?")))}
+        (in_repo if hit else third).append(rec)
+    return in_repo, third
 
 
 def load_findings(pid):
@@ -116,16 +165,18 @@ def merge_distinct(bindir, files):
         return 0
 
 
-def run_shards(bindir, binname, tier, seed, nshards, outdir, scale, timeout, extra_args=()):
+def run_shards(bindir, binname, tier, seed, nshards, outdir, scale, timeout, extra_args=(), extra_env=None):
     if os.path.isdir(outdir):
         shutil.rmtree(outdir)
     os.makedirs(outdir, exist_ok=True)
     procs = []
+    env = dict(os.environ)
+    env.update(extra_env or {})
     for i in range(nshards):
         cmd = [os.path.join(bindir, binname), "--tier", tier, "--seed", str(seed), "--shard", str(i),
                "--nshards", str(nshards), "--out", outdir, "--scale", str(scale)] + list(extra_args)
         lf = open(os.path.join(outdir, "shard-%d.log" % i), "w")
-        procs.append((i, subprocess.Popen(cmd, stdout=lf, stderr=subprocess.STDOUT, cwd=outdir), lf))
+        procs.append((i, subprocess.Popen(cmd, stdout=lf, stderr=subprocess.STDOUT, cwd=outdir, env=env), lf))
     deadline = time.time() + timeout
     problems = []
     summaries = []
@@ -264,9 +315,26 @@ def main(argv):
                 flavour_notes[fl] = "build failed: " + flog[-300:]
                 inconclusive.append("flavour %s: build failed" % fl)
                 continue
-            fs, fproblems = run_shards(fbindir, binname, "quick", seed, nshards, os.path.join(paths.run, "fl-" + fl), scale * spec.get("flavour_scale", 1.0), timeout)
+            fdir = os.path.join(paths.run, "fl-" + fl)
+            fs, fproblems = run_shards(fbindir, binname, "quick", seed, nshards, fdir, scale * spec.get("flavour_scale", 1.0), timeout,
+                                       extra_args=spec.get("flavour_args", {}).get(fl, []), extra_env=sanitizer_env(fl, fdir))
             fm = merge(fs)
             flavour_notes[fl] = {"evaluations": fm["evaluations"], "violations_per_sig": fm["per_sig"], "problems": fproblems}
+            if fl in SANITIZERS:
+                in_repo, third = sanitizer_reports(fdir, paths.repo)
+                flavour_notes[fl]["sanitizer_reports_in_repo"] = [r["kind"] + " @ " + r["frame"] for r in in_repo]
+                flavour_notes[fl]["sanitizer_reports_third_party"] = sorted(set(r["kind"] + " @ " + r["frame"] for r in third))
+                if third or in_repo:
+                    # a sanitizer report ends its shard early: that shard's missing summary is accounted for here
+                    fproblems = [p for p in fproblems if "without summary" not in p]
+                for r in in_repo:
+                    sig = "%s|%s" % (r["kind"], r["frame"].split(" ")[0])
+                    wpath = os.path.join(fdir, "sanitizer-%s.json" % hashlib.sha1(sig.encode()).hexdigest()[:12])
+                    with open(wpath, "w") as wf:
+                        json.dump({"property": pid, "rule": "sanitizer-" + fl, "sig": sig, "case": {"report_file": r["file"], "report": open(r["file"], errors="replace").read()[:20000]},
+                                   "expected": "no sanitizer report with a faulting frame in hickory-dns", "observed": r["kind"], "seed": seed, "tier": "thorough", "flavour": fl}, wf, indent=1)
+                    fm["per_sig"]["sanitizer-%s|%s" % (fl, sig)] = fm["per_sig"].get("sanitizer-%s|%s" % (fl, sig), 0) + 1
+                    fm["violations"].append({"rule": "sanitizer-" + fl, "sig": sig, "file": wpath})
             for k, v in fm["per_sig"].items():
                 m["per_sig"]["%s" % k] = m["per_sig"].get(k, 0) + v
             for v in fm["violations"]:
